@@ -207,11 +207,19 @@ def lossless_variants(cols: dict, roots: list, types: dict, r: random.Random, k_
         v = cols[c]
         if t is float and all(float(x).is_integer() and abs(x) < 2**52 for x in v):
             elig.append((c, "int64"))
+            if all(abs(x) < 2**31 for x in v):
+                elig.append((c, "int32"))
+            if all(0 <= x < 2**16 for x in v):
+                elig.append((c, "uint16"))
         elif t is int:
             elig.append((c, "float64"))
+            if all(abs(x) < 2**24 for x in v):
+                elig.append((c, "float32"))  # every integer below 2**24 is exact in float32
         elif t is bool:
             elig.append((c, "int64"))
             elig.append((c, "float64"))
+            elig.append((c, "uint8"))
+            elig.append((c, "float32"))
     r.shuffle(elig)
     for c, dt in elig[:k_single]:
         out.append({"cols": {c: dt}})
@@ -230,12 +238,37 @@ def lossless_variants(cols: dict, roots: list, types: dict, r: random.Random, k_
     return out
 
 
+def override_variants(base_frame, r: random.Random, k: int) -> list:
+    """A computed column supplied as data (it then overrides its rule) in a losslessly
+    convertible dtype: its documented type is the rule's return annotation."""
+    import numpy as np
+
+    out = []
+    cand = []
+    for c in base_frame.columns:
+        if c.endswith("_id"):
+            continue
+        v = base_frame[c].to_numpy()
+        if v.dtype.kind == "f" and np.all(np.isfinite(v)) and np.all(v == np.round(v)) and np.all(np.abs(v) < 2**31):
+            cand.append((c, "float64", r.choice(["int64", "int32"])))
+        elif v.dtype.kind in "iu":
+            cand.append((c, "int64", "float64"))
+        elif v.dtype.kind == "b":
+            cand.append((c, "bool", r.choice(["int64", "float64"])))
+    r.shuffle(cand)
+    for c, native, dt in cand[:k]:
+        out.append({"cols": {}, "override": {c: dt}, "override_native": {c: native}, "override_values": {c: base_frame[c].to_numpy().tolist()}})
+    return out
+
+
 def apply_variant(df, variant):
     import numpy as np
 
     df = df.copy()
     for c, dt in variant["cols"].items():
-        df[c] = df[c].to_numpy().astype(np.int64 if dt == "int64" else np.float64)
+        df[c] = df[c].to_numpy().astype(getattr(np, dt))
+    for c, dt in (variant.get("override") or {}).items():
+        df[c] = np.asarray(variant["override_values"][c]).astype(getattr(np, dt))
     return df
 
 
@@ -276,6 +309,16 @@ def judge_fault(df, fault, params, functions, types, form="frame", live=None):
 
 def judge_variant(df, variant, base_res, params, functions):
     var = apply_variant(df, variant)
+    if variant.get("override"):
+        # reference: the same computed columns supplied as data in their own dtype
+        ref_df = df.copy()
+        import numpy as np
+
+        for c in variant["override"]:
+            ref_df[c] = np.asarray(variant["override_values"][c]).astype(getattr(np, variant["override_native"][c]))
+        base_res = compare.run_call(ref_df, params, functions)
+        if base_res[0] == "exc":
+            return "ok", None  # overriding this column is not possible at all - nothing to compare
     res = compare.run_call(var, params, functions)
     if res[0] == "exc":
         return "raised", f"{res[1]}: {res[2][:200]}"
@@ -290,7 +333,7 @@ def judge_variant(df, variant, base_res, params, functions):
         if a.dtype != b.dtype or not np.array_equal(a, b, equal_nan=a.dtype.kind == "f"):
             return "changed", c
     texts = [m for k, m in warns if k == "UserWarning"]
-    missing = [c for c in variant["cols"] if not any(f" - {c} from " in t for t in texts)]
+    missing = [c for c in [*variant["cols"], *(variant.get("override") or {})] if not any(f" - {c} from " in t for t in texts)]
     if missing:
         return "silent", missing[:5]
     return "ok", None
@@ -411,7 +454,18 @@ def explore(run_seed: int, cfg: dict) -> dict:
         if res[0] != "exc":
             out["violations"].append(_minimise_fault({"date": date, "cols": cols, "faults": [f1, f2], "form": "frame", "kind": "accepted"}, params, functions, types))
     # lossless variants
-    for v in lossless_variants(cols, roots, types, r, cfg.get("var_single", 4), cfg.get("var_multi", 2)):
+    variants = lossless_variants(cols, roots, types, r, cfg.get("var_single", 4), cfg.get("var_multi", 2))
+    if graph and cfg.get("var_override", 2):
+        from gettsim import config
+
+        full = compare.run_call(df, params, functions, targets=graph["order"])
+        if full[0] == "frame":
+            # only policy rules with a return annotation have a documented type the data is converted to;
+            # derived columns (automatic sums, time-unit variants) are used as supplied
+            annotated = {n for n, fn in functions.items() if "return" in getattr(fn, "__annotations__", {})} if isinstance(functions, dict) else set()
+            inter = full[1][[c for c in full[1].columns if c not in config.DEFAULT_TARGETS and c in annotated]]
+            variants += override_variants(inter, r, cfg.get("var_override", 2))
+    for v in variants:
         verdict, info = judge_variant(df, v, base, params, functions)
         out["evaluated"] += 1
         out["variants"][verdict] = out["variants"].get(verdict, 0) + 1
